@@ -1,7 +1,7 @@
 from registry_common import COMMON_ASSUME
 
 ENTRY = dict(
-    prop_modules=["C06", "C06Lifetime"],
+    prop_modules=["C06", "C06Lifetime", "C06Probe"],
     title="No write request ever carries a value outside the controller-reported range",
     design_ref="DESIGN.md section 6 / C06",
     technique=("Lean 4 model of the front of Parameter.set (normalisation after the subclass's display->raw conversion in the exact binary64 model, "
@@ -38,6 +38,7 @@ ENTRY = dict(
         "raw encoding of a requested value": "C17's conversion model (exact binary64), correspondence-validated",
         "a refused / no-op second set while a call is in flight is inert": "theorem (`rejected_set_inert_while_pending`) + correspondence; an ACCEPTED overlapping call is outside this machine (C08)",
         "overlapping ACCEPTED calls x reports moving the bounds: every transmission within the bounds held at ITS call's check; outside the last reported bounds only as F7": "theorem (`tx_checked_at_own_call`, `unmoved_bounds_in_range`, `sync_first_attempt_at_call`) + correspondence (harness/c06life.py: 2..4 sequential / overlapping calls x narrowing, widening, shifting reports x timers x executor held on 9 parameters, judged by C06L.judge: F7 only where the check-once machine SetL transmits the same request in the same step)",
+        "front of set() / normalisation / confirmation rule of EVERY parameter class = the model, on a complete small grid": "table (Generated/ParamProbe.lean: the translator PROBES the real classes Number, Switch, Ecomax*, Mixer*, Thermostat*, Schedule* — request builders stubbed, everything else the class's own — on class x description (unit, 0.5/offset 2, 0.1/offset 20) x triples incl. min=max, min>max, value outside its bounds x 32 requested values; bounds admitting everything for the normalisation; pending / not pending x reported value x reported bounds for update()) + theorem (`validate_table_agrees`, `rawOf_table_agrees`, `confirm_table_agrees`, `confirm_table_agrees_setm`, `probe_classes_complete`, kernel-evaluated): a subclass overriding the check, the conversion or the confirmation rule breaks a named lemma",
         "model = implementation": "correspondence (every table row x triples x boundary requests; histories with reports between attempts, refused overlapping calls)",
         "the bounds in force are those reported for THAT sub-device": "correspondence (devices populated by ONE response for 2..5 mixers / 2..3 thermostats with disjoint ranges per sub-device; on every sub-device its own bounds +-1 and every other sub-device's bounds are requested, through every public set route, and judged by C06.spec against the triple reported for that sub-device; in half of the configurations a client callback subscribed to the first parameter of every sub-device raises while the controller re-reports other bounds)",
     },
